@@ -3,7 +3,7 @@ import random
 from pathlib import Path
 
 from vlib import Check
-from checks.tables_common import (table_models, generated, run_tables, value_models, generated_values,
+from checks.tables_common import (random_table_histories, table_models, generated, run_tables, value_models, generated_values,
                                   random_value_histories, run_values, param_family)
 
 
@@ -56,6 +56,7 @@ def run(tier):
         hs += generated(chk, 5, "{0, 3}", need_copy=True, limit=6000)
         av = [h for h in generated(chk, 5, "{0, 3}", need_copy=True, addv=True) if sum(o["op"] == "addv" for o in h["ops"]) >= 2]
         hs += random.Random(chk.seed * 5 + 2).sample(av, min(len(av), 6000))
+    hs += random_table_histories(random.Random(chk.seed * 5 + 3), 40 if tier == "quick" else 1500, 24)
     m = run_tables(chk, hs, {"C19"}, label="c19")
     # whole blocks: items, six manners of copying, generic reads on the copies, serialisation (BlockValue.tla)
     value_models(chk, tier)
